@@ -455,3 +455,96 @@ func emptinessEdges(ifi *ssa.If, isLen func(ssa.Value) bool) (empty, nonEmpty *s
 	}
 	return nil, nil, false
 }
+
+// ---------- accept points (an enqueue that succeeded), through enqueue helpers ----------
+
+// acceptPoint: a program point right after a payload was accepted into the write queue.
+//   body != nil : the block entered when the select's send state was chosen (in fn)
+//   from != nil : a call of an enqueue helper in fn; the accepted side is where its error result is nil
+type acceptPoint struct {
+	fn   *ssa.Function
+	body *ssa.BasicBlock
+	from ssa.Instruction
+	errv ssa.Value
+	desc string
+}
+
+// edgeOK for searches starting at the point: stay on the accepted side of a helper call.
+func (a acceptPoint) edgeOK(x, y *ssa.BasicBlock) bool {
+	if a.errv == nil {
+		return true
+	}
+	return !isErrNonNilEdge(x, y, a.errv)
+}
+
+// acceptPoints enumerates accept points. A function that sends on the queue but never attempts the sender CAS
+// itself is an enqueue helper (nil error <=> accepted, C01-R2 checks that): its callers inherit the accept point.
+func (e *ev) acceptPoints() []acceptPoint {
+	var out []acceptPoint
+	acq := &core.Query{P: e.p, Pred: e.runningAcquire, MaxDepth: 3}
+	var fromCallers func(h *ssa.Function, depth int)
+	fromCallers = func(h *ssa.Function, depth int) {
+		if depth > 2 {
+			return
+		}
+		for _, g := range e.p.Funcs {
+			core.AllInstrs(g, func(in ssa.Instruction) {
+				cc := core.CallCommon(in)
+				if cc == nil || cc.IsInvoke() || cc.StaticCallee() != h {
+					return
+				}
+				if _, isGo := in.(*ssa.Go); isGo {
+					return
+				}
+				if !acq.May(g, nil) && g.Signature.Results().Len() > 0 && isErrorT(g.Signature.Results().At(g.Signature.Results().Len()-1).Type()) {
+					fromCallers(g, depth+1) // another helper level
+					return
+				}
+				out = append(out, acceptPoint{fn: g, from: in, errv: errOfCall(in), desc: core.FName(g) + "/after-" + h.Name()})
+			})
+		}
+	}
+	for _, h := range e.r.Enqueuers {
+		if acq.May(h, nil) {
+			n := 0
+			for _, si := range e.sendSelects(h) {
+				for _, st := range si.States {
+					if st.Body != nil && st.Send != nil && e.isField(st.Chan, e.r.WriteQueue) {
+						n++
+						out = append(out, acceptPoint{fn: h, body: st.Body, desc: core.FName(h) + "/enqueue#" + core.PathItoa(n)})
+					}
+				}
+			}
+			for _, f := range core.WithAnon(h) {
+				core.AllInstrs(f, func(in ssa.Instruction) {
+					if s, ok := in.(*ssa.Send); ok && e.queueSend(s) {
+						n++
+						out = append(out, acceptPoint{fn: h, from: in, desc: core.FName(h) + "/enqueue#" + core.PathItoa(n)})
+					}
+				})
+			}
+			continue
+		}
+		fromCallers(h, 0)
+	}
+	return out
+}
+
+// isEnqueueHelper: h sends on the queue but leaves starting the sender to its callers.
+func (e *ev) isEnqueueHelper(h *ssa.Function) bool {
+	acq := &core.Query{P: e.p, Pred: e.runningAcquire, MaxDepth: 3}
+	return !acq.May(h, nil)
+}
+
+// logicalEnqueuers: the functions that own an accept point (enqueuers, or callers of enqueue helpers).
+func (e *ev) logicalEnqueuers() []*ssa.Function {
+	seen := map[*ssa.Function]bool{}
+	var out []*ssa.Function
+	for _, a := range e.acceptPoints() {
+		if !seen[a.fn] {
+			seen[a.fn] = true
+			out = append(out, a.fn)
+		}
+	}
+	return out
+}
